@@ -833,8 +833,9 @@ def rule_row_reset(ctx):
     ctx.rule(rid, "property 8 of the MA tree is W minus the local gradient (property 9) of the pixel to the left, and plain W in column 0.  "
                   "Properties::record keeps that gradient in PredictorState.prev_grad; on every path through the row wrap (the store of "
                   "constant 0 into the state's `x`) the last store into `prev_grad` before the return is the constant 0.  Decided by a "
-                  "reachability walk over (block, passed the wrap, prev_grad is zero) states.  A wrap that keeps the gradient of the "
-                  "last pixel of the row above shifts property 8 of every first pixel, for trees that test it")
+                  "reachability walk over (block, passed the wrap, prev_grad is zero) states; a same-crate helper called on the way "
+                  "(`begin_next_row`) contributes its own summary.  A wrap that keeps the gradient of the last pixel of the row above "
+                  "shifts property 8 of every first pixel, for trees that test it")
     md = ctx.prog.crate("jxl_modular")
     fs = [g for g in md.fn_list if g.path.endswith("::record") and "predictor::Properties" in g.path and g.kind == "AssocFn"]
     if len(fs) != 1:
@@ -852,39 +853,53 @@ def rule_row_reset(ctx):
         k = op_const_int(st[2][1]) if st[2][0] == "use" else None
         return ("const", k) if k is not None else ("var", None)
 
-    n_wrap = n_grad = 0
-    for blk in f.blocks:
-        for st in blk[0]:
-            a, b = field_store(st, "x"), field_store(st, "prev_grad")
-            n_wrap += 1 if a == ("const", 0) else 0
-            n_grad += 1 if b else 0
-    if not n_wrap or not n_grad:
-        ctx.anchor_missing(rid, "the stores `x = 0` (row wrap) and `prev_grad = ..` on PredictorState in Properties::record")
-        return
-    start = (0, False, False)
-    seen, work, bad = {start}, [start], False
-    while work:
-        b, wrapped, zero = work.pop()
-        for st in f.stmts(b):
-            a, g = field_store(st, "x"), field_store(st, "prev_grad")
-            if a == ("const", 0):
-                wrapped = True
-            if g:
-                zero = g == ("const", 0)
-        t = f.term(b)
-        if t[0] == "ret":
-            if wrapped and not zero:
-                bad = True
-            continue
-        for x in f.succs(b):
-            if f.is_cleanup(x):
+    seen_stores = {"x": 0, "prev_grad": 0}
+    memo = {}
+
+    def summary(g, depth):
+        """set of (wrapped, zero) at the returns of g, zero in {None = untouched, True, False}"""
+        if g.path in memo:
+            return memo[g.path]
+        memo[g.path] = {(False, None)}
+        start = (0, False, None)
+        seen, work, outs = {start}, [start], set()
+        while work:
+            b, wrapped, zero = work.pop()
+            for st in g.stmts(b):
+                a, gr = field_store(st, "x"), field_store(st, "prev_grad")
+                if a == ("const", 0):
+                    wrapped = True
+                    seen_stores["x"] += 1
+                if gr:
+                    zero = gr == ("const", 0)
+                    seen_stores["prev_grad"] += 1
+            t = g.term(b)
+            if t[0] == "ret":
+                outs.add((wrapped, zero))
                 continue
-            s2 = (x, wrapped, zero)
-            if s2 not in seen:
-                seen.add(s2)
-                work.append(s2)
-    ctx.count(rid + ".states", len(seen))
-    if bad:
+            nxt = [(wrapped, zero)]
+            if t[0] == "call" and depth > 0:
+                c = callee(t)
+                h = md.fns.get(c.get("res") or c["fn"]) or md.fns.get(c["fn"]) if c else None
+                if h is not None and "predictor" in h.path and h.kind != "Promoted" and len(h.blocks) < 200:
+                    nxt = [(wrapped or w2, zero if z2 is None else z2) for (w2, z2) in summary(h, depth - 1)]
+            for x in g.succs(b):
+                if g.is_cleanup(x):
+                    continue
+                for (w3, z3) in nxt:
+                    s2 = (x, w3, z3)
+                    if s2 not in seen:
+                        seen.add(s2)
+                        work.append(s2)
+        memo[g.path] = outs
+        return outs
+
+    outs = summary(f, 2)
+    if not seen_stores["x"] or not seen_stores["prev_grad"]:
+        ctx.anchor_missing(rid, "the stores `x = 0` (row wrap) and `prev_grad = ..` on PredictorState in Properties::record or the helpers it calls")
+        return
+    ctx.count(rid + ".outcomes", len(outs))
+    if any(w and z is not True for (w, z) in outs):
         ctx.bad(rid, "prev_grad-cleared-at-wrap|not", "a path through the row wrap returns with prev_grad not cleared: the first pixel of the next row "
                 "sees the gradient of the last pixel of this row in property 8", fn=f)
     else:
